@@ -1,2 +1,633 @@
-(* Proofs/StreamProofsC.v *)
+(* Proofs/StreamProofsC.v — C07, first half: a stream that fails after k bytes
+   of a well-formed input delivers leading records of the fault-free decode,
+   then exactly one error. *)
+From Coq Require Import String.
 From Bio Require Import Base.
+From Bio.Model Require Fasta Fastq Sam Bed Newick.
+From Bio.Model Require Import Stream.
+From Bio.Spec Require FastaSpec FastqSpec SamSpec BedSpec NewickSpec.
+From Bio.Proofs Require FastaProofs FastaProofsB FastaProofsC FastqProofs FastqProofsB FastqProofsC
+  SamProofs SamProofsB SamProofsC BedProofs BedProofsB BedProofsC
+  NewickProofs NewickProofsB NewickProofsC.
+From Bio.Proofs Require Import StreamProofs StreamProofsB.
+Open Scope N_scope.
+
+(* ================================================================== *)
+(* prefixes of concatenations                                           *)
+
+Definition lines_text (ls : list bytes) : bytes := concat (map (fun l => l ++ [LF]) ls).
+
+(* a prefix of a text made of LF-terminated lines: some complete lines, then
+   a (possibly empty) prefix of the next line, without its LF *)
+Lemma firstn_lines : forall ls k, exists j tail rest,
+  (j <= length ls)%nat
+  /\ firstn k (lines_text ls) = lines_text (firstn j ls) ++ tail
+  /\ nth j ls [] = tail ++ rest.
+Proof.
+  unfold lines_text. unfold bytes, byte.
+  induction ls as [|l r IH]; intro k.
+  - exists 0%nat, [], []. split; [apply Nat.le_refl|]. split; [now rewrite firstn_nil | reflexivity].
+  - destruct (Nat.le_gt_cases k (length l)) as [Hk|Hk].
+    + exists 0%nat, (firstn k l), (skipn k l). split; [apply Nat.le_0_l|]. split.
+      * cbn [map concat firstn app]. rewrite <- app_assoc, firstn_app.
+        replace (k - length l)%nat with 0%nat by lia. now rewrite firstn_O, app_nil_r.
+      * cbn [nth]. now rewrite firstn_skipn.
+    + destruct (IH (k - length l - 1)%nat) as (j & tail & rest & Hj & E & Hn).
+      exists (S j), tail, rest. split; [cbn [length]; lia|]. split; [|exact Hn].
+      cbn [map concat firstn]. rewrite <- !app_assoc.
+      rewrite firstn_app, (firstn_all2 l) by lia. f_equal.
+      replace (k - length l)%nat with (S (k - length l - 1)) by lia.
+      cbn [app firstn]. f_equal. exact E.
+Qed.
+
+(* a prefix of a concatenation of blocks: empty, or some complete blocks and
+   then a non-empty prefix (possibly all) of the next block *)
+Lemma firstn_concat : forall (l : list bytes) k,
+  firstn k (concat l) = []
+  \/ exists j x m, nth_error l j = Some x /\ (0 < m <= length x)%nat
+       /\ firstn k (concat l) = concat (firstn j l) ++ firstn m x.
+Proof.
+  unfold bytes, byte.
+  induction l as [|x r IH]; intro k.
+  - left. apply firstn_nil.
+  - destruct k as [|k']; [left; reflexivity|]. remember (S k') as k.
+    destruct (Nat.le_gt_cases k (length x)) as [Hk|Hk].
+    + right. exists 0%nat, x, k. split; [reflexivity|]. split; [lia|].
+      cbn [concat firstn app]. rewrite firstn_app.
+      replace (k - length x)%nat with 0%nat by lia. now rewrite firstn_O, app_nil_r.
+    + cbn [concat]. rewrite firstn_app, (firstn_all2 x) by lia.
+      destruct (IH (k - length x)%nat) as [E|(j & y & m & Hn & Hm & E)].
+      * rewrite E, app_nil_r. destruct x as [|b x'] eqn:Ex; [now left|].
+        right. exists 0%nat, (b :: x'), (length (b :: x')). split; [reflexivity|].
+        split; [cbn [length]; lia|]. cbn [firstn concat app]. now rewrite firstn_all.
+      * right. exists (S j), y, m. split; [exact Hn|]. split; [exact Hm|].
+        rewrite E. cbn [firstn concat]. now rewrite app_assoc.
+Qed.
+
+Lemma firstn_snoc {A} (l : list A) : forall j x, nth_error l j = Some x ->
+  firstn (S j) l = firstn j l ++ [x].
+Proof.
+  induction l as [|a l IH]; intros [|j] x H; try discriminate.
+  - injection H as ->. reflexivity.
+  - cbn [nth_error] in H. change (firstn (S (S j)) (a :: l)) with (a :: firstn (S j) l).
+    now rewrite (IH j x H).
+Qed.
+
+Lemma nth_error_le {A} (l : list A) j x : nth_error l j = Some x -> (S j <= length l)%nat.
+Proof. intro H. apply Nat.le_succ_l. apply nth_error_Some. congruence. Qed.
+
+Lemma nth_error_Forall {A} (P : A -> Prop) l j x : Forall P l -> nth_error l j = Some x -> P x.
+Proof. intros H Hn. rewrite Forall_forall in H. apply H. eapply nth_error_In. exact Hn. Qed.
+
+Lemma Forall_firstn {A} (P : A -> Prop) n l : Forall P l -> Forall P (firstn n l).
+Proof.
+  intro H. revert n. induction H as [|a l Ha _ IH]; intros [|n]; try constructor; [exact Ha | apply IH].
+Qed.
+
+Lemma Forall2_len {A B} (R : A -> B -> Prop) l l' : Forall2 R l l' -> length l = length l'.
+Proof. induction 1; [reflexivity | cbn [length]; congruence]. Qed.
+
+Lemma nth_Forall {A} (P : A -> Prop) l j d : Forall P l -> P d -> P (nth j l d).
+Proof.
+  intros H Hd. revert j. induction H as [|a l Ha _ IH]; intros [|j]; cbn [nth]; auto.
+Qed.
+
+(* ================================================================== *)
+(* items of line-oriented readers                                       *)
+
+(* every line yields exactly one record *)
+Lemma flat_map_singletons {A B} (f : A -> list (item B)) ls es :
+  Forall2 (fun l e => f l = [Rec e]) ls es ->
+  forall j, flat_map f (firstn j ls) = map Rec (firstn j es).
+Proof.
+  induction 1 as [|l e ls es Hle _ IH]; intros [|j]; try reflexivity.
+  cbn [firstn flat_map map]. now rewrite Hle, IH.
+Qed.
+
+Lemma flat_map_singletons_all {A B} (f : A -> list (item B)) ls es :
+  Forall2 (fun l e => f l = [Rec e]) ls es -> flat_map f ls = map Rec es.
+Proof.
+  induction 1 as [|l e ls es Hle _ IH]; [reflexivity|]. cbn [flat_map map]. now rewrite Hle, IH.
+Qed.
+
+(* ================================================================== *)
+(* SAM                                                                  *)
+
+Lemma sam_line_entries o hs rs :
+  Forall SamSpec.header_ok hs -> Forall (SamSpec.sam_ok o) rs ->
+  exists rs', Forall2 SamSpec.sam_eq rs rs'
+    /\ Forall2 (fun l e => Sam.process_line o l = [Rec e])
+               (hs ++ map (SamProofsB.line o) rs) (map Sam.Hdr hs ++ map Sam.Aln rs').
+Proof.
+  intros Hh Hr.
+  assert (A : Forall2 (fun l e => Sam.process_line o l = [Rec e]) hs (map Sam.Hdr hs)).
+  { induction Hh as [|h hs Hh _ IH]; constructor; [now apply SamProofsC.process_header | exact IH]. }
+  assert (B : exists rs', Forall2 SamSpec.sam_eq rs rs'
+     /\ Forall2 (fun l e => Sam.process_line o l = [Rec e]) (map (SamProofsB.line o) rs) (map Sam.Aln rs')).
+  { induction Hr as [|r rs Hr _ [rs' [E1 E2]]].
+    - exists []. split; constructor.
+    - destruct (SamProofsB.process_line_written o r Hr) as [r' [Hp He]].
+      exists (r' :: rs'). split; constructor; assumption. }
+  destruct B as [rs' [E1 E2]]. exists rs'. split; [exact E1|]. now apply Forall2_app.
+Qed.
+
+Lemma fault_prefix_sam o hs rs k :
+  Forall SamSpec.header_ok hs -> Forall (SamSpec.sam_ok o) rs ->
+  exists es j,
+    Sam.reader_header o (sam_file o hs rs) TEOF = map Rec es
+    /\ (j <= length es)%nat
+    /\ Sam.reader_header o (firstn k (sam_file o hs rs)) TErr = map Rec (firstn j es) ++ [ErrItem].
+Proof.
+  intros Hh Hr. destruct (sam_file_lines o hs rs Hh Hr) as (E & Hlf & _).
+  destruct (sam_line_entries o hs rs Hh Hr) as (rs' & _ & F2).
+  set (ls := hs ++ map (SamProofsB.line o) rs) in *.
+  exists (map Sam.Hdr hs ++ map Sam.Aln rs').
+  destruct (firstn_lines ls k) as (j & tail & rest & Hj & Ek & Hn).
+  exists j. split; [|split].
+  - rewrite E, (SamProofsC.reader_header_lines o ls Hlf). now apply flat_map_singletons_all.
+  - rewrite <- (Forall2_len _ _ _ F2). exact Hj.
+  - rewrite E. fold (lines_text ls). rewrite Ek. unfold lines_text.
+    rewrite SamProofsC.reader_header_lines_err.
+    + f_equal. now apply flat_map_singletons.
+    + now apply Forall_firstn.
+    + assert (Hnth : SamProofs.nosep LF (nth j ls [])) by (apply nth_Forall; [exact Hlf | constructor]).
+      rewrite Hn in Hnth. unfold SamProofs.nosep in *. now apply Forall_app in Hnth as [A _].
+Qed.
+
+(* the same for Reader (header lines filtered out) *)
+Lemma filter_hdrs hs : flat_map Sam.reader_filter (map Rec (map Sam.Hdr hs)) = [].
+Proof. induction hs as [|h hs IH]; [reflexivity|]. cbn [map flat_map Sam.reader_filter app]. exact IH. Qed.
+
+Lemma filter_alns rs : flat_map Sam.reader_filter (map Rec (map Sam.Aln rs)) = map Rec rs.
+Proof. induction rs as [|r rs IH]; [reflexivity|]. cbn [map flat_map Sam.reader_filter app]. now rewrite IH. Qed.
+
+Lemma fault_prefix_sam_reader o hs rs k :
+  Forall SamSpec.header_ok hs -> Forall (SamSpec.sam_ok o) rs ->
+  exists rs' j,
+    Sam.reader o (sam_file o hs rs) TEOF = map Rec rs'
+    /\ (j <= length rs')%nat
+    /\ Sam.reader o (firstn k (sam_file o hs rs)) TErr = map Rec (firstn j rs') ++ [ErrItem].
+Proof.
+  intros Hh Hr. destruct (sam_file_lines o hs rs Hh Hr) as (E & Hlf & _).
+  destruct (sam_line_entries o hs rs Hh Hr) as (rs' & _ & F2).
+  set (ls := hs ++ map (SamProofsB.line o) rs) in *.
+  destruct (firstn_lines ls k) as (j & tail & rest & Hj & Ek & Hn).
+  exists rs', (j - length hs)%nat. unfold Sam.reader. split; [|split].
+  - rewrite E, (SamProofsC.reader_header_lines o ls Hlf), (flat_map_singletons_all _ _ _ F2).
+    now rewrite map_app, flat_map_app, filter_hdrs, filter_alns.
+  - apply Forall2_len in F2. unfold ls in *. rewrite !app_length, !map_length in *. lia.
+  - rewrite E. fold (lines_text ls). rewrite Ek. unfold lines_text.
+    rewrite SamProofsC.reader_header_lines_err.
+    + rewrite (flat_map_singletons _ _ _ F2 j), flat_map_app. cbn [flat_map Sam.reader_filter app].
+      f_equal. rewrite firstn_app, map_app, flat_map_app, map_length.
+      rewrite !firstn_map, filter_hdrs, filter_alns. reflexivity.
+    + now apply Forall_firstn.
+    + assert (Hnth : SamProofs.nosep LF (nth j ls [])) by (apply nth_Forall; [exact Hlf | constructor]).
+      rewrite Hn in Hnth. unfold SamProofs.nosep in *. now apply Forall_app in Hnth as [A _].
+Qed.
+
+(* ================================================================== *)
+(* BED                                                                  *)
+
+Lemma dec_lines_written_err k bs tail : Forall (fun b => BedSpec.bed_ok b /\ Bed.b_n b = k) bs ->
+  forall n, (n = 0 \/ n = Z.to_nat k)%nat ->
+  Bed.dec_lines n (map BedProofsB.line_of bs) tail TErr
+  = map (fun b => Rec (BedSpec.first_n b)) bs ++ [ErrItem].
+Proof.
+  induction 1 as [|b bs [Hb Hk] _ IH]; intros n Hn; [reflexivity|].
+  cbn [map Bed.dec_lines]. rewrite (BedProofsC.do_line_written n b Hb) by (rewrite Hk; exact Hn).
+  rewrite Hk. rewrite IH by (right; reflexivity). reflexivity.
+Qed.
+
+Lemma fault_prefix_bed n0 bs w k :
+  Forall (fun b => BedSpec.bed_ok b /\ Bed.b_n b = n0) bs -> bed_file bs = Ok w ->
+  exists j, (j <= length bs)%nat
+    /\ Bed.decode (firstn k w) TErr
+       = map (fun b => Rec (BedSpec.first_n b)) (firstn j bs) ++ [ErrItem].
+Proof.
+  intros H Hw.
+  assert (Hok : Forall BedSpec.bed_ok bs) by (eapply Forall_impl; [|exact H]; now intros b [A _]).
+  unfold bed_file in Hw.
+  rewrite BedProofsC.write_file_text in Hw by (eapply Forall_impl; [|exact Hok]; now intros b [A _]).
+  injection Hw as <-.
+  assert (Hlf : Forall (BedProofs.nob LF) (map BedProofsB.line_of bs)).
+  { apply Forall_map. eapply Forall_impl; [|exact Hok]. intros b Hb.
+    apply BedProofsB.line_nob; [exact Hb | discriminate | reflexivity]. }
+  assert (Et : BedProofsC.text_of bs = lines_text (map BedProofsB.line_of bs)).
+  { unfold BedProofsC.text_of, lines_text. now rewrite map_map. }
+  destruct (firstn_lines (map BedProofsB.line_of bs) k) as (j & tail & rest & Hj & Ek & Hn).
+  exists j. rewrite map_length in Hj. split; [exact Hj|].
+  rewrite Et, Ek. unfold Bed.decode.
+  assert (Ht : SamProofs.nosep LF tail).
+  { assert (Hnth : BedProofs.nob LF (nth j (map BedProofsB.line_of bs) []))
+      by (apply nth_Forall; [exact Hlf | constructor]).
+    rewrite Hn in Hnth. unfold BedProofs.nob in *. now apply Forall_app in Hnth as [A _]. }
+  pose proof (SamProofsC.rs_lines_tail _ tail (Forall_firstn _ j _ Hlf) Ht) as X.
+  unfold lines_text. unfold bytes, byte in *. rewrite X.
+  rewrite firstn_map.
+  apply (dec_lines_written_err n0); [now apply Forall_firstn | now left].
+Qed.
+
+(* ================================================================== *)
+(* FASTQ                                                                *)
+
+Lemma nth_error_map_inv {A B} (f : A -> B) l : forall j x,
+  nth_error (map f l) j = Some x -> exists a, nth_error l j = Some a /\ x = f a.
+Proof.
+  induction l as [|a l IH]; intros [|j] x H; try discriminate.
+  - injection H as <-. now exists a.
+  - cbn [map nth_error] in *. now apply IH.
+Qed.
+
+Lemma scan_tokens_lines ls tail : Forall FastqSpec.no_lf ls -> FastqSpec.no_lf tail ->
+  scan_tokens (lines_text ls ++ tail)
+  = map drop_cr ls ++ match tail with [] => [] | _ => [drop_cr tail] end.
+Proof.
+  intros H Ht. induction H as [|l ls Hl _ IH].
+  - cbn [lines_text map concat app]. destruct tail as [|b tl]; [reflexivity|].
+    now apply FastqProofs.scan_tokens_last.
+  - unfold lines_text in *. cbn [map concat]. rewrite <- !app_assoc. cbn [app].
+    rewrite FastqProofs.scan_tokens_line by exact Hl. cbn [map app]. f_equal. exact IH.
+Qed.
+
+Lemma no_lf_prefix a b : FastqSpec.no_lf (a ++ b) -> FastqSpec.no_lf a.
+Proof. intros H Hin. apply H. apply in_or_app. now left. Qed.
+
+Lemma no_cr_prefix (a b : bytes) : ~ In CR (a ++ b) -> ~ In CR a.
+Proof. intros H Hin. apply H. apply in_or_app. now left. Qed.
+
+(* what a stream that fails inside (or right after) one written record yields *)
+Lemma fastq_partial r m : FastqSpec.fq_ok r ->
+  Fastq.decode (firstn m (Fastq.write r)) TErr = [ErrItem]
+  \/ Fastq.decode (firstn m (Fastq.write r)) TErr = [Rec r; ErrItem].
+Proof.
+  intros Hok. pose proof Hok as (Hn & Hs & Hq & Hlen).
+  pose proof (FastqProofs.field_ok_no_lf _ Hn) as Ln.
+  pose proof (FastqProofs.field_ok_no_lf _ Hs) as Ls.
+  pose proof (FastqProofs.field_ok_no_lf _ Hq) as Lq.
+  pose proof (FastqProofs.field_ok_drop_cr _ Hs) as Ds.
+  pose proof (FastqProofs.field_ok_drop_cr _ Hq) as Dq.
+  assert (Dn : drop_cr (Fastq.AT :: Fastq.name r) = Fastq.AT :: Fastq.name r).
+  { apply FastqProofs.drop_cr_no_cr. intros [E|Hin]; [discriminate|].
+    exact (FastqProofs.field_ok_no_cr _ Hn Hin). }
+  assert (L1 : FastqSpec.no_lf (Fastq.AT :: Fastq.name r)) by now apply FastqProofs.at_no_lf.
+  pose proof FastqProofs.plus_no_lf as L3.
+  rewrite FastqProofs.write_unlines.
+  change (FastqSpec.unlines (FastqSpec.record_lines r))
+    with (lines_text [Fastq.AT :: Fastq.name r; Fastq.seq r; [Fastq.PLUS]; Fastq.quals r]).
+  destruct (firstn_lines [Fastq.AT :: Fastq.name r; Fastq.seq r; [Fastq.PLUS]; Fastq.quals r] m)
+    as (i & tail & rest & Hi & E & Hnth).
+  rewrite E. unfold Fastq.decode.
+  assert (Hnl : FastqSpec.no_lf []) by (intros []).
+  destruct i as [|[|[|[|[|i]]]]]; cbn [nth firstn] in Hnth |- *; cbn [length] in Hi; try lia.
+  - (* inside the first line *)
+    rewrite scan_tokens_lines; [|constructor | rewrite Hnth in L1; now apply no_lf_prefix in L1].
+    left. destruct tail; [reflexivity|]. apply FastqProofsC.err_short. cbn [map app length]. lia.
+  - rewrite scan_tokens_lines;
+      [|repeat constructor; assumption | rewrite Hnth in Ls; now apply no_lf_prefix in Ls].
+    left. apply FastqProofsC.err_short. destruct tail; cbn [map app length]; lia.
+  - rewrite scan_tokens_lines;
+      [|repeat constructor; assumption | rewrite Hnth in L3; now apply no_lf_prefix in L3].
+    left. apply FastqProofsC.err_short. destruct tail; cbn [map app length]; lia.
+  - (* inside the qualities line *)
+    rewrite scan_tokens_lines;
+      [|repeat constructor; assumption | rewrite Hnth in Lq; now apply no_lf_prefix in Lq].
+    cbn [map app]. rewrite Dn, Ds.
+    destruct tail as [|b tl] eqn:Et.
+    + left. apply FastqProofsC.err_short. cbn [length]. lia.
+    + rewrite <- Et in *. clear Et.
+      assert (Dt : drop_cr tail = tail).
+      { apply FastqProofs.drop_cr_no_cr. pose proof (FastqProofs.field_ok_no_cr _ Hq) as C.
+        rewrite Hnth in C. now apply no_cr_prefix in C. }
+      rewrite Dt. change (drop_cr [Fastq.PLUS]) with [Fastq.PLUS]. cbn [app].
+      destruct (Nat.eq_dec (length tail) (length (Fastq.seq r))) as [El|Nl].
+      * right. rewrite FastqProofsB.decode_toks_record by exact El.
+        assert (Er : rest = []).
+        { apply length_zero_iff_nil. apply (f_equal (@length N)) in Hnth.
+          rewrite app_length in Hnth. lia. }
+        subst rest. rewrite app_nil_r in Hnth. rewrite <- Hnth, FastqProofsB.fastq_eta. reflexivity.
+      * left. now apply FastqProofsC.err_length.
+  - (* the whole record *)
+    assert (Et : tail = []) by (destruct tail; [reflexivity | discriminate]).
+    subst tail. rewrite app_nil_r.
+    rewrite <- (app_nil_r (lines_text _)).
+    rewrite scan_tokens_lines; [|repeat constructor; assumption | exact Hnl].
+    cbn [map app]. rewrite Dn, Ds, Dq. change (drop_cr [Fastq.PLUS]) with [Fastq.PLUS].
+    right. rewrite FastqProofsB.decode_toks_record by (symmetry; exact Hlen).
+    now rewrite FastqProofsB.fastq_eta.
+Qed.
+
+Lemma fault_prefix_fastq rs k : Forall FastqSpec.fq_ok rs ->
+  exists j, (j <= length rs)%nat
+    /\ Fastq.decode (firstn k (fastq_file rs)) TErr = map Rec (firstn j rs) ++ [ErrItem].
+Proof.
+  intro H. unfold fastq_file.
+  destruct (firstn_concat (map Fastq.write rs) k) as [E | (j & x & m & Hn & Hm & E)].
+  - exists 0%nat. split; [apply Nat.le_0_l|]. rewrite E. reflexivity.
+  - apply nth_error_map_inv in Hn as (r & Hr & ->).
+    rewrite E, firstn_map.
+    rewrite FastqProofsB.decode_prefix by now apply Forall_firstn.
+    pose proof (nth_error_le _ _ _ Hr) as Hj.
+    destruct (fastq_partial r m (nth_error_Forall _ _ _ _ H Hr)) as [P|P]; rewrite P.
+    + exists j. split; [lia | reflexivity].
+    + exists (S j). split; [exact Hj|].
+      rewrite (firstn_snoc rs j r Hr), map_app, <- app_assoc. reflexivity.
+Qed.
+
+(* ================================================================== *)
+(* FASTA                                                                *)
+
+(* if read() runs through c ++ rest without finding the start of a next
+   record, it runs through c as well *)
+Lemma rd_loop_prefix_none c : forall rest st nm sq any x,
+  Fasta.rd_loop st nm sq any (c ++ rest) = (x, None) ->
+  exists x', Fasta.rd_loop st nm sq any c = (x', None).
+Proof.
+  induction c as [|b c IH]; intros rest st nm sq any x H.
+  - eexists. reflexivity.
+  - cbn [app Fasta.rd_loop] in H |- *. destruct st.
+    + destruct (b =? Fasta.GT); [|destruct (Fasta.is_nl b)]; eapply IH; exact H.
+    + destruct (Fasta.is_nl b); [eapply IH; exact H|].
+      destruct (b =? Fasta.GT); [discriminate | eapply IH; exact H].
+    + destruct (Fasta.is_nl b); eapply IH; exact H.
+    + destruct (Fasta.is_nl b); eapply IH; exact H.
+Qed.
+
+(* a read() that ended at the start of a next record did not consult the
+   terminal condition *)
+Lemma read_one_break inp r rest tm :
+  Fasta.read_one inp TEOF = Fasta.RdRec r rest -> rest <> [] ->
+  Fasta.read_one inp tm = Fasta.RdRec r rest.
+Proof.
+  unfold Fasta.read_one.
+  destruct (Fasta.rd_loop Fasta.SStart [] [] false inp) as [[[nm sq] any] [rest'|]].
+  - intros H _. exact H.
+  - intros H Hne. destruct (negb any); [discriminate|]. injection H as _ <-. congruence.
+Qed.
+
+Lemma read_one_stuck c x :
+  Fasta.rd_loop Fasta.SStart [] [] false c = (x, None) -> Fasta.read_one c TErr = Fasta.RdErr.
+Proof.
+  unfold Fasta.read_one. intros ->. destruct x as [[nm sq] any]. destruct (negb any); reflexivity.
+Qed.
+
+Lemma recl_write l r : FastaSpec.fa_ok r -> FastaSpec.RecL l r (Fasta.write r).
+Proof.
+  intro H. rewrite FastaProofsC.write_is_write_nl.
+  apply FastaProofsC.recl_write_nl; [exact H | apply FastaProofsC.sep_lf].
+Qed.
+
+(* no prefix of a written record contains the start of a next record *)
+Lemma write_stuck r m : FastaSpec.fa_ok r ->
+  exists x, Fasta.rd_loop Fasta.SStart [] [] false (firstn m (Fasta.write r)) = (x, None).
+Proof.
+  intro Hok.
+  assert (F : exists x, Fasta.rd_loop Fasta.SStart [] [] false (Fasta.write r) = (x, None)).
+  { pose proof (FastaProofsB.rd_rec true r (Fasta.write r) (recl_write true r Hok) [] eq_refl) as H.
+    rewrite app_nil_r in H. unfold Fasta.read_one in H.
+    destruct (Fasta.rd_loop Fasta.SStart [] [] false (Fasta.write r)) as [x [rest|]] eqn:R;
+      [|eexists; reflexivity].
+    destruct x as [[nm sq] any]. injection H as _ Hr. subst rest. exfalso.
+    eapply FastaProofsC.rd_loop_some_nonnil; [exact R | reflexivity]. }
+  destruct F as [x F]. rewrite <- (firstn_skipn m (Fasta.write r)) in F.
+  eapply rd_loop_prefix_none. exact F.
+Qed.
+
+Lemma decode_fuel_then_stuck pre : Forall FastaSpec.fa_ok pre -> forall c c' x f,
+  c = Fasta.GT :: c' -> Fasta.rd_loop Fasta.SStart [] [] false c = (x, None) ->
+  (length pre < f)%nat ->
+  Fasta.decode_fuel f (concat (map Fasta.write pre) ++ c) TErr = map Rec pre ++ [ErrItem].
+Proof.
+  induction 1 as [|r pre Hr _ IH]; intros c c' x f Ec Hst Hf.
+  - destruct f; [inversion Hf|]. cbn [map concat app Fasta.decode_fuel].
+    now rewrite (read_one_stuck c x Hst).
+  - destruct f; [inversion Hf|]. cbn [map concat]. rewrite <- app_assoc. cbn [Fasta.decode_fuel].
+    assert (Hstop : exists r', concat (map Fasta.write pre) ++ c = Fasta.GT :: r').
+    { destruct pre as [|r2 pre2].
+      - cbn [map concat app]. subst c. eexists. reflexivity.
+      - cbn [map concat]. destruct (FastaProofsC.write_end r2) as [y Ey]. rewrite Ey.
+        cbn [app]. eexists. reflexivity. }
+    pose proof (FastaProofsB.rd_rec false r (Fasta.write r) (recl_write false r Hr) _ Hstop) as R.
+    cbn iota in R.
+    rewrite (read_one_break _ _ _ TErr R) by (destruct Hstop as [r' ->]; discriminate).
+    cbn [map app]. f_equal. apply (IH c c' x f Ec Hst). cbn [length] in Hf. lia.
+Qed.
+
+Lemma fault_prefix_fasta rs k : Forall FastaSpec.fa_ok rs ->
+  exists j, (j <= length rs)%nat
+    /\ Fasta.decode (firstn k (fasta_file rs)) TErr = map Rec (firstn j rs) ++ [ErrItem].
+Proof.
+  intro H. unfold fasta_file.
+  destruct (firstn_concat (map Fasta.write rs) k) as [E | (j & x & m & Hn & Hm & E)].
+  - exists 0%nat. split; [apply Nat.le_0_l|]. rewrite E. reflexivity.
+  - apply nth_error_map_inv in Hn as (r & Hr & ->).
+    pose proof (nth_error_le _ _ _ Hr) as Hj.
+    pose proof (nth_error_Forall _ _ _ _ H Hr) as Hok.
+    exists j. split; [lia|]. rewrite E, firstn_map.
+    set (inp := concat (map Fasta.write (firstn j rs)) ++ firstn m (Fasta.write r)).
+    rewrite <- (FastaProofsB.decode_fuel_sufficient inp TErr (S (length inp) + S (length (firstn j rs))))
+      by lia.
+    destruct (write_stuck r m Hok) as [x Hx].
+    destruct (FastaProofsC.write_end r) as [y Ey].
+    destruct m as [|m']; [lia|].
+    eapply (decode_fuel_then_stuck (firstn j rs) (Forall_firstn _ j _ H) _ _ x).
+    + rewrite Ey. cbn [app firstn]. reflexivity.
+    + exact Hx.
+    + lia.
+Qed.
+
+(* ================================================================== *)
+(* Newick                                                               *)
+
+(* The tokeniser on a prefix c of an input c ++ d, under a failing stream:
+   it either fails (it needed a byte beyond c) or returns a token completed
+   inside c, the same token it returns on the whole input. *)
+Lemma tok_loop_prefix tm d : forall c q aq buf,
+  match Newick.tok_loop q aq buf c TErr with
+  | Newick.TokErr => True
+  | Newick.TokOk tok r => Newick.tok_loop q aq buf (c ++ d) tm = Newick.TokOk tok (r ++ d)
+  | Newick.TokEOF => False
+  end.
+Proof.
+  induction c as [|b c IH]; intros q aq buf; [exact I|].
+  cbn [app Newick.tok_loop]. destruct q.
+  - destruct (b =? 39); [apply IH|]. destruct aq; [reflexivity | apply IH].
+  - destruct (b =? 39).
+    + destruct (Newick.nonempty buf); [exact I | apply IH].
+    + destruct (Newick.is_punct b).
+      * destruct (Newick.nonempty buf); reflexivity.
+      * destruct (Newick.is_ws b); [|apply IH].
+        destruct (Newick.nonempty buf); [reflexivity | apply IH].
+Qed.
+
+Definition extend (c : Newick.config) (d : bytes) : Newick.config :=
+  {| Newick.c_state := Newick.c_state c; Newick.c_top := Newick.c_top c;
+     Newick.c_below := Newick.c_below c; Newick.c_any := Newick.c_any c;
+     Newick.c_input := Newick.c_input c ++ d |}.
+
+Lemma read_step_prefix o tm d c :
+  match Newick.read_step o TErr c with
+  | Newick.Done Newick.RErr => True
+  | Newick.Done Newick.RPanic => True
+  | Newick.Done Newick.REOF => False
+  | Newick.Done (Newick.ROk t r) =>
+      Newick.read_step o tm (extend c d) = Newick.Done (Newick.ROk t (r ++ d))
+  | Newick.Continue c' => Newick.read_step o tm (extend c d) = Newick.Continue (extend c' d)
+  end.
+Proof.
+  unfold Newick.read_step, extend. cbn [Newick.c_input Newick.c_state Newick.c_top Newick.c_below Newick.c_any].
+  unfold Newick.next_token.
+  pose proof (tok_loop_prefix tm d (Newick.c_input c) false false []) as P.
+  destruct (Newick.tok_loop false false [] (Newick.c_input c) TErr) as [tok rest| |];
+    [|contradiction | exact I].
+  rewrite P. clear P.
+  destruct (Newick.c_state c), (Newick.c_below c); cbn [Newick.st_eqb negb orb];
+    repeat match goal with
+    | |- context [if ?b then _ else _] => destruct b
+    | |- context [match ?x with Some _ => _ | None => _ end] => destruct x
+    end; try exact I; reflexivity.
+Qed.
+
+Lemma read_loop_prefix o tm d : forall fuel c,
+  match Newick.read_loop o fuel TErr c with
+  | Newick.ROk t r => Newick.read_loop o fuel tm (extend c d) = Newick.ROk t (r ++ d)
+  | Newick.REOF => False
+  | _ => True
+  end.
+Proof.
+  induction fuel as [|f IH]; intro c; [exact I|].
+  cbn [Newick.read_loop]. pose proof (read_step_prefix o tm d c) as P.
+  destruct (Newick.read_step o TErr c) as [c'|r].
+  - rewrite P. apply IH.
+  - destruct r; try exact I; [now rewrite P | contradiction].
+Qed.
+
+Lemma read_loop_mono o tm : forall f c r, Newick.read_loop o f tm c = r -> r <> Newick.RPanic ->
+  forall f', (f <= f')%nat -> Newick.read_loop o f' tm c = r.
+Proof.
+  induction f as [|f IH]; intros c r H Hr f' Hf; [cbn in H; congruence|].
+  destruct f' as [|f']; [inversion Hf|]. cbn [Newick.read_loop] in *.
+  destruct (Newick.read_step o tm c) as [c'|r']; [|exact H].
+  apply (IH c' r H Hr). lia.
+Qed.
+
+Lemma read_tree_prefix o tm c d :
+  Newick.read_tree o c TErr = Newick.RErr
+  \/ exists t r, Newick.read_tree o c TErr = Newick.ROk t r
+                 /\ Newick.read_tree o (c ++ d) tm = Newick.ROk t (r ++ d).
+Proof.
+  unfold Newick.read_tree.
+  pose proof (read_loop_prefix o tm d (S (length c)) (Newick.init_config c)) as P.
+  destruct (Newick.read_loop o (S (length c)) TErr (Newick.init_config c)) as [t r| | |] eqn:E.
+  - right. exists t, r. split; [reflexivity|].
+    change (extend (Newick.init_config c) d) with (Newick.init_config (c ++ d)) in P.
+    apply (read_loop_mono o tm _ _ _ P); [discriminate|]. rewrite app_length. lia.
+  - contradiction.
+  - now left.
+  - exfalso. revert E. apply NewickProofsC.read_loop_no_panic. cbn [Newick.init_config Newick.c_input]. lia.
+Qed.
+
+(* a stream that fails inside a written tree (after leading whitespace) *)
+Lemma read_tree_partial o t ws c d :
+  NewickSpec.ws_string ws -> NewickSpec.floats_ok o t -> Newick.marshal o t = c ++ d -> d <> [] ->
+  Newick.read_tree o (ws ++ c) TErr = Newick.RErr.
+Proof.
+  intros Hws Hok E Hd.
+  destruct (read_tree_prefix o TEOF (ws ++ c) d) as [H | (t' & r & _ & H)]; [exact H|].
+  exfalso. rewrite <- app_assoc, <- E in H.
+  pose proof (NewickProofsC.read_tree_marshal o TEOF t ws [] Hws Hok) as R.
+  rewrite app_nil_r in R. rewrite R in H. injection H as _ H.
+  symmetry in H. apply app_eq_nil in H as [_ H]. contradiction.
+Qed.
+
+(* a stream that fails in the whitespace after a tree *)
+Lemma read_tree_ws_err o ws : NewickSpec.ws_string ws -> Newick.read_tree o ws TErr = Newick.RErr.
+Proof.
+  intro H. unfold Newick.read_tree, Newick.init_config. cbn [Newick.read_loop]. unfold Newick.read_step.
+  cbn [Newick.c_input Newick.c_any]. rewrite <- (app_nil_r ws).
+  rewrite (NewickProofsB.next_token_skip_ws ws [] TErr H). reflexivity.
+Qed.
+
+Lemma seq_text_app o l1 l2 :
+  NewickSpec.seq_text o (l1 ++ l2) = NewickSpec.seq_text o l1 ++ NewickSpec.seq_text o l2.
+Proof.
+  induction l1 as [|[t s] l1 IH]; [reflexivity|].
+  cbn [app NewickSpec.seq_text]. now rewrite IH, !app_assoc.
+Qed.
+
+(* complete trees, then a text on which read() fails *)
+Lemma decode_loop_seq_err o : forall l ws0 tail fuel acc,
+  NewickSpec.ws_string ws0 ->
+  Forall (fun p => NewickSpec.floats_ok o (fst p) /\ NewickSpec.ws_string (snd p)) l ->
+  (forall ws, NewickSpec.ws_string ws -> Newick.read_tree o (ws ++ tail) TErr = Newick.RErr) ->
+  (length (ws0 ++ NewickSpec.seq_text o l ++ tail) < fuel)%nat ->
+  Newick.decode_loop o fuel (ws0 ++ NewickSpec.seq_text o l ++ tail) TErr acc
+  = Ok (rev acc ++ map (fun p => Rec (NewickSpec.norm (fst p))) l ++ [ErrItem]).
+Proof.
+  induction l as [|[t sep] l IH]; intros ws0 tail fuel acc Hws HF Ht Hfuel.
+  - destruct fuel as [|f]; [inversion Hfuel|].
+    cbn [NewickSpec.seq_text app Newick.decode_loop map]. now rewrite (Ht ws0 Hws).
+  - inversion HF as [|? ? [Hok Hsep] HF']; subst. cbn [fst snd] in *.
+    destruct fuel as [|f]; [inversion Hfuel|].
+    cbn [NewickSpec.seq_text Newick.decode_loop]. rewrite <- !app_assoc.
+    rewrite (NewickProofsC.read_tree_marshal o TErr t ws0 _ Hws Hok).
+    rewrite (IH sep tail f (Rec (NewickSpec.norm t) :: acc) Hsep HF' Ht).
+    + cbn [rev map fst]. now rewrite <- !app_assoc.
+    + cbn [NewickSpec.seq_text] in Hfuel. pose proof (NewickProofsC.marshal_length o t).
+      rewrite !app_length in *. lia.
+Qed.
+
+Lemma fault_prefix_newick o ts k : Forall (NewickSpec.floats_ok o) ts ->
+  exists j, (j <= length ts)%nat
+    /\ Newick.decode o (firstn k (newick_file o ts)) TErr
+       = Ok (map (fun t => Rec (NewickSpec.norm t)) (firstn j ts) ++ [ErrItem]).
+Proof.
+  intro H. unfold newick_file.
+  destruct (firstn_concat (map (fun t => Newick.marshal o t ++ [LF]) ts) k)
+    as [E | (j & x & m & Hn & Hm & E)].
+  - exists 0%nat. split; [apply Nat.le_0_l|]. rewrite E. reflexivity.
+  - apply nth_error_map_inv in Hn as (t & Ht & ->).
+    pose proof (nth_error_le _ _ _ Ht) as Hj.
+    pose proof (nth_error_Forall _ _ _ _ H Ht) as Hok.
+    rewrite E, firstn_map, newick_lines_seq.
+    match goal with |- context [NewickSpec.seq_text o ?p] => set (pre := p) end.
+    assert (Hpre : Forall (fun p => NewickSpec.floats_ok o (fst p) /\ NewickSpec.ws_string (snd p)) pre).
+    { apply Forall_map. apply Forall_firstn. eapply Forall_impl; [|exact H].
+      intros t0 H0. split; [exact H0 | repeat constructor]. }
+    assert (Emap : map (fun p => Rec (NewickSpec.norm (fst p))) pre
+                   = map (fun t0 => Rec (NewickSpec.norm t0)) (firstn j ts)).
+    { unfold pre. now rewrite map_map. }
+    rewrite app_length in Hm. cbn [length] in Hm.
+    destruct (Nat.lt_ge_cases m (length (Newick.marshal o t))) as [Hlt|Hge].
+    + (* inside the tree *)
+      exists j. split; [lia|].
+      rewrite firstn_app. replace (m - length (Newick.marshal o t))%nat with 0%nat by lia.
+      rewrite firstn_O, app_nil_r. unfold Newick.decode.
+      pose proof (decode_loop_seq_err o pre [] (firstn m (Newick.marshal o t))
+                    (S (length (NewickSpec.seq_text o pre ++ firstn m (Newick.marshal o t)))) []
+                    (Forall_nil _) Hpre) as D.
+      cbn [app rev] in D. unfold bytes, byte in *. rewrite D; [now rewrite Emap | | lia].
+      intros ws Hws.
+      apply (read_tree_partial o t ws _ (skipn m (Newick.marshal o t)) Hws Hok).
+      * now rewrite firstn_skipn.
+      * intro Hs. apply (f_equal (@length N)) in Hs. rewrite skipn_length in Hs. cbn in Hs. lia.
+    + (* the whole tree, with or without the LF after it *)
+      exists (S j). split; [exact Hj|].
+      assert (Ec : exists sep, NewickSpec.ws_string sep
+                   /\ firstn m (Newick.marshal o t ++ [LF]) = Newick.marshal o t ++ sep).
+      { rewrite firstn_app, (firstn_all2 (Newick.marshal o t)) by lia.
+        eexists. split; [|reflexivity].
+        destruct (m - length (Newick.marshal o t))%nat as [|[|n]]; cbn [firstn]; repeat constructor. }
+      destruct Ec as (sep & Hsep & ->).
+      pose proof (decode_loop_seq_err o (pre ++ [(t, sep)]) [] []
+                    (S (length (NewickSpec.seq_text o (pre ++ [(t, sep)]) ++ []))) []
+                    (Forall_nil _)) as D.
+      cbn [app rev] in D. rewrite seq_text_app in D. cbn [NewickSpec.seq_text] in D.
+      rewrite !app_nil_r in D. unfold Newick.decode.
+      unfold bytes, byte in *. rewrite D.
+      * rewrite map_app, Emap. cbn [map fst].
+        now rewrite (firstn_snoc ts j t Ht), map_app.
+      * apply Forall_app. split; [exact Hpre|]. constructor; [now split | constructor].
+      * intros ws Hws. rewrite app_nil_r. now apply read_tree_ws_err.
+      * lia.
+Qed.
